@@ -21,6 +21,12 @@ Oracle (every clause of the statement):
     independent verifier; written with a passphrase: loading without one raises PasswordRequiredException,
     with a wrong one raises and never returns a key;
  d. the same passphrase clauses for the bundled passphrase-protected files of all three types;
+ b'. converse of b with NEAR keys (vlib-independent construction through `cryptography`): a key sharing only part of
+    the public material (EC mirrored point, RSA same n / other e, Ed25519 one bit, ...) is unequal, is not found in a
+    dict keyed by the key, and its own object forms are equal among themselves: a == b <=> public blobs equal;
+ c'. histories on one path: 2-3 key files written over each other (other key, other class, passphrase added /
+    removed / changed; paramiko's writer or the harness, in place or by rename), each loaded back immediately by
+    file name - the load must give the key just written, and respect the passphrase just set;
  e. a newly created key file has no group/other permission bits and is owner read+write, under umask 0, 0o022
     and 0o077 (umask restored afterwards); a pre-existing longer file is fully replaced.
 """
@@ -47,7 +53,15 @@ RULE = (
     "text, traditional encrypted PEM under AES-128-CBC/AES-256-CBC/DES-EDE3-CBC from an independent writer), a writing passphrase "
     "(none, ascii, unicode incl. astral, long, whitespace, empty), a wrong passphrase (none, empty, prefix, case-changed, "
     "other, bytes form), target path new or pre-existing (0644/0600/0666, longer content), umask 0/0o022/0o077 and a "
-    "second key for the inequality clause; non-trivial = passphrase-protected (written or obtained from encrypted text) or "
+    "second key for the inequality clause; a NEAR key for the converse of the equality clause (a == b <=> public blobs equal): "
+    "built with cryptography from the reference key so that it shares part of the public material - ECDSA mirrored point "
+    "(same x, y' = p - y: scalar n - d), neighbouring scalar, same scalar on another curve; RSA same n with another e (valid "
+    "private key, d' recomputed), same e with one bit of n flipped, e and n swapped; Ed25519 one bit flipped / bytes rotated - "
+    "as public-only and (where a private key exists) private objects; and a HISTORY of 2-3 key files on ONE path (who: the "
+    "key / the other key / the near key, which may be of another class; passphrase none or one of four; written by "
+    "write_private_key_file, or by the harness in place / by rename), every step loaded back at once through "
+    "from_private_key_file, Class(filename=), PKey.from_path, with the per-load oracle unchanged (that key, signing-capable, "
+    "refused without / with a wrong passphrase); non-trivial = passphrase-protected (written or obtained from encrypted text) or "
     "certificate-bearing or umask != 0o077; "
     "distinct by SHA-1 of the case"
 )
@@ -242,12 +256,26 @@ passphrases = st.one_of(
 )
 
 
+# NEAR keys: different keys that share part of their public material with the key of the case (built with
+# `cryptography` from the reference private key, never by paramiko)
+NEAR_KINDS = {
+    "ECDSAKey": ["ec-negate", "ec-negate", "ec-neighbour", "ec-other-curve"],
+    "RSAKey": ["rsa-same-n-other-e", "rsa-same-n-other-e", "rsa-same-e-n-bit", "rsa-swapped-e-n"],
+    "Ed25519Key": ["ed-bit", "ed-bit", "ed-byte-rotated"],
+}
+HIST_PASS = [None, None, "television", "hist pass \u00e9", "x", "Television"]
+HIST_WRITERS = ["paramiko", "paramiko", "external-truncate", "external-replace"]
+hist_step = st.tuples(st.sampled_from(["key", "other", "key", "near"]), st.sampled_from(HIST_PASS), st.sampled_from(HIST_WRITERS)).map(list)
+
+
 @st.composite
 def cases(draw, fixed_key=None):
     key = fixed_key if fixed_key is not None else draw(keyids())
     prov = draw(st.sampled_from(provs_for(key)))
     other = draw(keyids())
     return {
+        "near": [draw(st.sampled_from(NEAR_KINDS[key_class(key)])), draw(st.integers(0, 9999))],
+        "history": draw(st.lists(hist_step, min_size=2, max_size=3)),
         "key": key,
         "prov": prov,
         "pass": draw(passphrases),
@@ -276,6 +304,131 @@ def wrong_pass(right, kind):
         sw = right.swapcase()
         return sw if sw != right else right + "X"
     return "not-" + right[::-1]
+
+
+# ----------------------------------------------------------------------------- near keys
+
+_CURVE_CLS = {"nistp256": "SECP256R1", "nistp384": "SECP384R1", "nistp521": "SECP521R1"}
+_RSA_EXPONENTS = [3, 5, 17, 257, 65539, 65537, 4294967297]
+
+
+def near_key(keyid, kind, aux):
+    """A key that is DIFFERENT from ``keyid`` but shares part of its public material, built from the reference
+    private key with `cryptography` / plain arithmetic only. -> dict(kind, blob (SSH public bytes, independent
+    encoder), name (key type string), priv (`cryptography` private key or None), genuine (a real, valid key:
+    paramiko must accept it), shares (what the two keys have in common)) or None when the kind does not apply."""
+    k = ("near", _kid(keyid), kind, aux)
+    if k in _cache:
+        return _cache[k]
+    from cryptography.hazmat.primitives.asymmetric import ec, rsa
+
+    from vlib import refssh as R
+
+    priv = ref_private(keyid)
+    ref = ref_public(keyid)
+    out = None
+    if kind.startswith("ec-"):
+        d = priv.private_numbers().private_value
+        n = K.curve_order(ref.curve)
+        if kind == "ec-negate":  # the mirrored point: same x, y' = p - y
+            p2 = ec.derive_private_key(n - d, priv.curve)
+            shares = "curve+x"
+        elif kind == "ec-neighbour":
+            d2 = (d - 1 + [1, -1, 2, -2][aux % 4]) % (n - 1) + 1
+            p2 = ec.derive_private_key(d2, priv.curve)
+            shares = "curve"
+        else:  # the same scalar on another curve
+            names = [c for c in sorted(_CURVE_CLS) if c != ref.curve]
+            c2 = names[aux % 2]
+            p2 = ec.derive_private_key((d - 1) % (K.curve_order(c2) - 1) + 1, getattr(ec, _CURVE_CLS[c2])())
+            shares = "scalar"
+        r2 = K.RefPub.from_crypto(p2.public_key())
+        if kind == "ec-negate":
+            a, b = priv.public_key().public_numbers(), p2.public_key().public_numbers()
+            assert a.x == b.x and a.y != b.y, "harness: negation does not mirror the point"
+        out = {"blob": r2.blob(), "name": r2.name, "priv": p2, "genuine": True, "shares": shares}
+    elif kind.startswith("rsa-"):
+        pn = priv.private_numbers()
+        e, n = pn.public_numbers.e, pn.public_numbers.n
+        if kind == "rsa-same-n-other-e":
+            import math
+
+            lam = (pn.p - 1) * (pn.q - 1) // math.gcd(pn.p - 1, pn.q - 1)
+            cands = [x for x in _RSA_EXPONENTS[aux % len(_RSA_EXPONENTS) :] + _RSA_EXPONENTS if x != e and math.gcd(x, lam) == 1]
+            e2 = cands[0]
+            d2 = pow(e2, -1, lam)
+            p2 = rsa.RSAPrivateNumbers(pn.p, pn.q, d2, d2 % (pn.p - 1), d2 % (pn.q - 1), pn.iqmp, rsa.RSAPublicNumbers(e2, n)).private_key()
+            r2 = K.RefPub.from_crypto(p2.public_key())
+            out = {"blob": r2.blob(), "name": "ssh-rsa", "priv": p2, "genuine": True, "shares": "n"}
+        elif kind == "rsa-same-e-n-bit":
+            bit = 1 + aux % (n.bit_length() - 2)  # stays odd, keeps its length
+            out = {"blob": R.string(b"ssh-rsa") + R.mpint(e) + R.mpint(n ^ (1 << bit)), "name": "ssh-rsa", "priv": None, "genuine": False, "shares": "e+most-of-n"}
+        else:  # the two numbers in the other order
+            out = {"blob": R.string(b"ssh-rsa") + R.mpint(n) + R.mpint(e), "name": "ssh-rsa", "priv": None, "genuine": False, "shares": "the-set-of-numbers"}
+    elif kind.startswith("ed-"):
+        from cryptography.hazmat.primitives import serialization as S
+
+        raw = priv.public_key().public_bytes(S.Encoding.Raw, S.PublicFormat.Raw)
+        if kind == "ed-bit":
+            bit = aux % 256
+            raw2 = raw[: bit // 8] + bytes([raw[bit // 8] ^ (1 << (bit % 8))]) + raw[bit // 8 + 1 :]
+        else:
+            sh = 1 + aux % 31
+            raw2 = raw[sh:] + raw[:sh]
+            if raw2 == raw:
+                raw2 = raw[:-1] + bytes([raw[-1] ^ 1])
+        out = {"blob": R.string(b"ssh-ed25519") + R.string(raw2), "name": "ssh-ed25519", "priv": None, "genuine": False, "shares": "31-bytes" if kind == "ed-bit" else "the-bytes-rotated"}
+    if out is not None:
+        out["kind"] = kind
+        assert out["blob"] != ref.blob(), "harness: near key is not different"
+    _cache[k] = out
+    return out
+
+
+def near_objects(cls_name, nk):
+    """[(label, paramiko object)] for a near key; Fail when a GENUINE key is refused, [] when paramiko refuses
+    material that merely looks like a key (cached)."""
+    k = ("nearobj", nk["blob"])
+    if k in _cache:
+        return _cache[k]
+    import paramiko
+
+    cls = getattr(paramiko, cls_name if not nk["name"].startswith("ecdsa") else "ECDSAKey")
+    makers = [("data", lambda: cls(data=nk["blob"])), ("type_string", lambda: paramiko.PKey.from_type_string(nk["name"], nk["blob"]))]
+    if nk["priv"] is not None:
+        makers.append(("object", (lambda: cls(key=nk["priv"])) if cls is paramiko.RSAKey else (lambda: cls(vals=(nk["priv"], nk["priv"].public_key())))))
+    out = []
+    for label, mk in makers:
+        try:
+            out.append((label, mk()))
+        except Exception as e:
+            if nk["genuine"]:
+                raise Fail("public-roundtrip", "%s:near-%s:%s" % (cls_name, label, type(e).__name__), "public bytes of a valid key (%s) do not parse: %r" % (nk["kind"], e))
+    _cache[k] = out
+    return out
+
+
+def check_near(ctx, cls_name, k, ref, prov, nk):
+    """Converse of clause b: a key that shares only PART of the public material is a different key."""
+    objs = near_objects(cls_name, nk)
+    if not objs:
+        ctx.count("near-refused-by-paramiko:" + nk["kind"])
+        return
+    same = nk["blob"] == ref.blob()  # False by construction; the reference decides
+    for label, o in objs:
+        if o.asbytes() != nk["blob"]:
+            raise Fail("public-encoding", "%s:near-%s" % (cls_name, label), "asbytes() of the near key (%s) differs from the bytes it was built from" % nk["kind"])
+        if (o == k) != same or (k == o) != same or (o != k) == same:
+            raise Fail("equality", "%s:near:%s" % (cls_name, nk["kind"]), "keys sharing only %s compare equal (== %r / %r, != %r); public blobs differ; object forms %s vs %s" % (nk["shares"], o == k, k == o, o != k, label, prov))
+        if (o in {k: 1}) != same:
+            raise Fail("hash", "%s:near:%s" % (cls_name, nk["kind"]), "a different key (shares %s) is found in a dict keyed by the key" % nk["shares"])
+        if hash(o) == hash(k):
+            ctx.count("near-hash-collision:" + nk["kind"])
+    first = objs[0][1]
+    for label, o in objs[1:]:
+        if not (o == first) or o != first or hash(o) != hash(first):
+            raise Fail("equality", "%s:near-forms:%s" % (cls_name, nk["kind"]), "two objects of the same near key (%s vs %s) are unequal or hash differently" % (objs[0][0], label))
+    ctx.count("near-compared:" + nk["kind"])
 
 
 # ----------------------------------------------------------------------------- oracle
@@ -352,13 +505,15 @@ def expect_refused(cls_name, loader, password, where):
 
 
 def obtain(keyid, prov):
-    """get_obj; for constructed key text (written by `cryptography` / the independent PEM writer, i.e. valid
-    by construction) a loader exception is a violation of the load-back clause, not a harness error."""
+    """get_obj; for key text that is valid (constructed: written by `cryptography` / the independent PEM writer;
+    bundled: loaded by the reference without paramiko) a loader exception is a violation of the load-back clause,
+    not a harness error."""
     try:
         return get_obj(keyid, prov)
     except Exception as e:
-        if isinstance(keyid, str) or prov == "object":
-            raise
+        if prov == "object" or K.exc_bucket(e).endswith("@outside-paramiko"):
+            raise  # not raised inside a key loader of the tree under test: a harness problem
+        # bundled files are valid too (the reference loads each of them without paramiko, see ref_private)
         raise Fail("private-load", "%s:%s:%s" % (key_class(keyid), prov, K.exc_bucket(e)), "valid key text (%s) does not load: %r" % (prov, e))
 
 
@@ -374,6 +529,10 @@ def execute(ctx, c):
     nontrivial = protected or c["prov"] == "file+cert" or c["prov"] in ENC_PROVS or (writes and c["umask"] != 0o077)
     classes = ["cls:" + cls_name, "prov:" + c["prov"], "umask:%o" % c["umask"], "pre:%s" % ("new" if c["pre"] is None else "%o" % c["pre"])]
     classes += material_classes(c["key"])
+    if "near" in c:
+        classes.append("near:" + c["near"][0])
+    if "history" in c:
+        classes += history_classes(c)
     if writes and c["pass"]:
         classes.append("written-protected:" + [x for x in classes if x.startswith(cls_name + "-der:")][0])
     ctx.case(c, nontrivial, classes)
@@ -400,6 +559,11 @@ def execute(ctx, c):
         if same and hash(o) != hash(k):
             raise Fail("hash", "%s:same-material" % cls_name, "equal keys (different files) hash differently")
         ctx.count("other:" + ("same" if same else "different"))
+        # b, converse: keys that share part of the public material are different keys
+        if "near" in c:
+            nk = near_key(c["key"], c["near"][0], c["near"][1])
+            if nk is not None:
+                check_near(ctx, cls_name, k, ref, c["prov"], nk)
 
         # d: bundled protected files
         if sp and sp.password:
@@ -408,7 +572,10 @@ def execute(ctx, c):
                 wp = wp.encode()
             ld = (lambda pw: cls.from_private_key_file(sp.path, pw)) if c["write_via"] == "file" else (lambda pw: cls.from_private_key(io.StringIO(sp.text), pw))
             ctx.count("bundled-refused:" + expect_refused(cls_name, ld, wp, "bundled-" + sp.fmt))
-            ld(sp.password.encode() if c["right_bytes"] else sp.password)
+            try:
+                ld(sp.password.encode() if c["right_bytes"] else sp.password)
+            except Exception as e:
+                raise Fail("private-load", "%s:bundled-%s:%s" % (cls_name, sp.fmt, K.exc_bucket(e)), "bundled protected key file does not load with its passphrase: %r" % (e,))
 
         # d': constructed protected files (independent traditional-PEM writer, every supported cipher)
         if c["prov"] in ENC_PROVS:
@@ -425,7 +592,14 @@ def execute(ctx, c):
         # c / e: writers
         if writes:
             write_and_reload(ctx, c, cls_name, cls, k, ref)
+        # c/d on a history: several key files on one path, each loaded back at once
+        if "history" in c:
+            history_on_one_path(ctx, c, cls_name, k, ref)
     except Fail as f:
+        if "%s|%s" % (f.clause, f.bucket) in ctx.unknown:
+            # this root cause has its (shrunk) replay already: do not shrink it once more in every later sweep
+            ctx.count("violation-repeated")
+            return
         ctx.violation(f.clause, f.bucket, c, f.detail)
 
 
@@ -500,8 +674,135 @@ def write_and_reload(ctx, c, cls_name, cls, k, ref):
     os.unlink(path)
 
 
+_kdf_memo = {}
+_real_kdf = None
+
+
+def _memoise_bcrypt_kdf():
+    """bcrypt.kdf is a pure function that costs ~120 ms per call at the 16 rounds of the bundled OpenSSH-format
+    files; histories load such a file several times. The harness memoises it (same arguments -> same bytes)."""
+    global _real_kdf
+    import bcrypt
+
+    if _real_kdf is not None:
+        return
+    _real_kdf = bcrypt.kdf
+
+    def kdf(password, salt, desired_key_bytes, rounds, ignore_few_rounds=False):
+        try:
+            key = (bytes(password), bytes(salt), desired_key_bytes, rounds, ignore_few_rounds)
+        except TypeError:
+            return _real_kdf(password, salt, desired_key_bytes, rounds, ignore_few_rounds)
+        if key not in _kdf_memo:
+            if len(_kdf_memo) > 2000:
+                _kdf_memo.clear()
+            _kdf_memo[key] = _real_kdf(password, salt, desired_key_bytes, rounds, ignore_few_rounds)
+        return _kdf_memo[key]
+
+    bcrypt.kdf = kdf
+
+
+def _hist_material(c, who, cls_name, k, ref):
+    """(class name, private paramiko object, reference public key, KeySpec or None, who) of one history step."""
+    if who == "near":
+        nk = near_key(c["key"], c["near"][0], c["near"][1])
+        if nk is not None and nk["priv"] is not None:
+            return cls_name, dict(near_objects(cls_name, nk))["object"], K.RefPub.from_crypto(nk["priv"].public_key()), None, "near"
+        who = "other"
+    if who == "other":
+        return key_class(c["other"]), obtain(c["other"], c["oprov"]), ref_public(c["other"]), (K.spec(c["other"]) if isinstance(c["other"], str) else None), "other"
+    return cls_name, k, ref, (K.spec(c["key"]) if isinstance(c["key"], str) else None), "key"
+
+
+def history_classes(c):
+    out = ["hist:steps-%d" % len(c["history"])]
+    prev = None
+    for who, pw, writer in c["history"]:
+        cur = (who, "protected" if pw else "plain")
+        out.append("hist:writer:" + writer)
+        if prev is not None:
+            out.append("hist:overwrite:%s->%s:%s->%s" % (prev[0], cur[0], prev[1], cur[1]))
+        prev = cur
+    return sorted(set(out))
+
+
+def history_on_one_path(ctx, c, cls_name, k, ref):
+    """A HISTORY of key files on ONE path: every step writes a key file (paramiko's file writer, or the text of
+    paramiko's stream writer / a bundled Ed25519 file put there by the harness, in place or by rename) over what
+    the previous step left, and loads it back at once. Oracle per load, unchanged: the file just written loads as
+    THAT key (equal, same public bytes, signing-capable); protected: refused without / with a wrong passphrase."""
+    import paramiko
+
+    _memoise_bcrypt_kdf()
+    path = os.path.join(K.fast_tmpdir(ctx), "hist-%d" % ctx.evaluations)
+    for p in (path, path + ".tmp"):
+        if os.path.exists(p):
+            os.unlink(p)
+    aux = c["near"][1]
+    prev = None
+    for i, (who, pw, writer) in enumerate(c["history"]):
+        mcls, obj, mref, msp, who = _hist_material(c, who, cls_name, k, ref)
+        cls = getattr(paramiko, mcls)
+        text = None
+        if mcls == "Ed25519Key":  # no writer in paramiko: the bundled file itself
+            text, pw = msp.text, msp.password
+            writer = "external-truncate" if writer == "paramiko" else writer
+        elif writer != "paramiko":
+            f = io.StringIO()
+            obj.write_private_key(f, password=pw)
+            text = f.getvalue()
+        existed = os.path.exists(path)
+        if writer == "paramiko":
+            obj.write_private_key_file(path, password=pw)
+            mode = stat.S_IMODE(os.stat(path).st_mode)
+            if not existed and (mode & 0o077 or (mode & 0o600) != 0o600):
+                raise Fail("new-file-mode", "%s:history" % mcls, "newly created key file has mode %o" % mode)
+        elif writer == "external-truncate":
+            with open(path, "w") as f:
+                f.write(text)
+        else:
+            with open(path + ".tmp", "w") as f:
+                f.write(text)
+            os.replace(path + ".tmp", path)
+        cur = (mref.blob(), pw)
+        if prev is None:
+            stage = "first-write"
+        elif prev[0] != cur[0]:
+            stage = "after-overwrite-with-another-key"
+        elif prev[1] != cur[1]:
+            stage = "after-overwrite-with-another-passphrase"
+        else:
+            stage = "after-rewrite"
+        ctx.count("history-step:%s:%s" % (stage, writer))
+        prev = cur
+        loaders = [("file", lambda p_: cls.from_private_key_file(path, p_)), ("ctor", lambda p_: cls(filename=path, password=p_))]
+        how, ld = loaders[(i + aux) % 2]
+        try:
+            back = ld(pw)
+        except Exception as e:
+            raise Fail("private-roundtrip", "%s:history:%s:%s" % (mcls, stage, type(e).__name__), "step %d (%s): the key file just written (%s, passphrase %r) does not load: %r" % (i, stage, writer, pw, e))
+        if back.asbytes() != mref.blob() or not (back == obj) or hash(back) != hash(obj):
+            raise Fail("private-roundtrip", "%s:history:%s:unequal" % (mcls, stage), "step %d (%s): loading the file just written (%s) gave another key than the one written" % (i, stage, writer))
+        check_signs(mcls, back, mref, "history-" + how)
+        if pw:
+            how2, ld2 = loaders[(i + aux + 1) % 2]
+            ctx.count("history-refused:" + expect_refused(mcls, ld2, None, "history:" + stage))
+            wp = wrong_pass(pw, c["wrong"])
+            if wp is not None:
+                ctx.count("history-refused:" + expect_refused(mcls, ld, wp.encode() if c["wrong_bytes"] else wp, "history:" + stage))
+        if (i + aux) % 3 == 0 and not (mcls == "Ed25519Key" and pw):  # (bcrypt inside `cryptography` cannot be memoised)
+            try:
+                back = paramiko.PKey.from_path(path, pw.encode() if pw else None)
+            except Exception as e:
+                raise Fail("private-roundtrip", "%s:history:%s:from_path:%s" % (mcls, stage, type(e).__name__), "step %d: PKey.from_path does not load the file just written: %r" % (i, e))
+            if back.asbytes() != mref.blob() or not (back == obj):
+                raise Fail("private-roundtrip", "%s:history:%s:from_path:unequal" % (mcls, stage), "step %d: PKey.from_path gave another key than the one written" % i)
+            ctx.count("history-from_path")
+    os.unlink(path)
+
+
 def run(ctx):
-    ctx.set_budget(40, 700)
+    ctx.set_budget(55, 700)
     fresh_rsa_pool(ctx)
     if ctx.tier == "thorough":
         import paramiko
@@ -514,6 +815,7 @@ def run(ctx):
         ctx.count("generated-rsa-%d" % bits)
     ctx.assume("write_private_key* with an empty passphrase may refuse (ValueError from the serializer); nothing is asserted about that call")
     ctx.assume("process umask is changed only around the write call (single-threaded) and restored")
+    ctx.assume("bcrypt.kdf is memoised by the harness (pure function; same arguments give the same bytes)")
     # 1. sweep: the finite set of constructed keys is enumerated completely in every run (every special scalar of
     #    every curve, every generated RSA key); the other dimensions of each case are drawn
     constructed = [["ec", curve, d] for curve in sorted(KM.EC_SHORT_COORD_SCALARS) for d in KM.ec_special_scalars(curve)] + list(_extra_keys)
